@@ -23,43 +23,49 @@ import (
 // Unit of work: (block tree, event placement, syncer kind). For each unit an
 // explicit-state breadth-first search runs the REAL Sync method:
 //
-//	state       = committed database (minipg snapshot) + two ghost variables that
-//	              are functions of the observed history and only classify the
-//	              next head (they never influence the code under test):
-//	              G, the tree block the stored position stands for, and the set
-//	              of heads shown since G last changed that lie off G's chain and
-//	              are not higher than G+1;
+//	state       = committed database (minipg snapshot) + one ghost variable G, the
+//	              tree block the stored position stands for (the block with the
+//	              stored hash; after a rollback, which stores an empty hash, the
+//	              ancestor of the previous G at the stored height). G is a function
+//	              of the observed history, only classifies the next head and never
+//	              influences the code under test;
 //	transition  = (head h, fault f): SetHead(h), Sync(header of h) with f injected;
 //	              f in {none, RPC error at call k, statement error at round trip
-//	              k, crash before / after round trip k} for every k of that call;
-//	canonical key = Dump(status table, event table[, fired_triggers]) + G + shown set.
+//	              k, crash before / after round trip k} for every k of that call
+//	              (a crash = panic with a private sentinel out of the minipg hook,
+//	              recovered at the top, AbortAll, syncer object rebuilt);
+//	canonical key = Dump(status table, event table[, fired_triggers]) + G.
 //	              States with equal keys have equal futures because the syncers
-//	              keep nothing between calls except the database (a crash
-//	              rebuilds the syncer object, which must therefore be irrelevant).
+//	              keep nothing between calls except the database.
 //
 // Oracle (from the property statement) after every Sync AND at every commit
-// point: if the status row (number, hash) is the canonical block at that
-// height, the event table is exactly the admissible events of the canonical
-// blocks [SyncStartBlockNumber, number]. If the position is not on the canonical
-// chain nothing is demanded.
+// point (minipg OnCommit): if the status row (number, hash) is the canonical
+// block at that height, the event table is exactly the admissible events of the
+// canonical blocks [SyncStartBlockNumber, number] - none missing, none from
+// abandoned blocks, none duplicated. Evaluating this at every commit point is
+// the atomicity clause: a commit that moves the position without that range's
+// events (or stores events beyond the position) is seen there. If the position
+// is not on the canonical chain nothing is demanded.
 //
 // Which heads the statement admits ("forks no deeper than the assumed reorg
 // depth whose first new head is at most one past the synced block") is decided
 // per transition from G:
 //
 //	admitted        h on G's chain (repeat, extension, gap, step back), or a fork
-//	                of depth <= 10 with h.number <= G.number+1;
-//	gap-after-shown a fork of depth <= 10 with h.number > G.number+1 where an
-//	                earlier head of that branch, not higher than G.number+1, was
-//	                already shown (so the FIRST new head met the precondition):
-//	                admitted by the letter of the statement; run, judged, not
-//	                expanded further;
-//	excluded        a fork whose first shown head is already past G.number+1, or a
-//	                fork deeper than the assumed reorg depth: informational probe,
-//	                outcome recorded in the evidence, never a failure.
+//	                of depth <= 10 with h.number <= G.number+1. Explored to the
+//	                depth bound, with every fault.
+//	gap             a fork of depth <= 10 with h.number > G.number+1. As the FIRST
+//	                head of the new branch this is what the statement excludes:
+//	                informational probe, outcome only recorded. If some earlier
+//	                head h' of that branch with h'.number <= G.number+1 exists
+//	                whose Sync call (observed in this very state) leaves the
+//	                database untouched, the sequence ..., h', h IS admitted by the
+//	                statement (first new head not past synced+1) and has the
+//	                observed outcome: judged under its own signature, not expanded.
+//	excluded-deep   a fork deeper than the assumed reorg depth: informational probe.
 const (
-	sigSkipsStart   = "C15/multieventsyncer-skips-start-block"
-	sigGap          = "C15/reorg-missed-after-lower-head-then-skip"
+	sigSkipsStart = "C15/multieventsyncer-skips-start-block"
+	sigGap        = "C15/reorg-missed-after-lower-head-then-skip"
 )
 
 type c15Step struct {
@@ -469,7 +475,7 @@ func c15Worklist(thorough bool) []c15Work {
 	// that a time cap cuts the fault enumeration, not the head sequences.
 	every := 16
 	if thorough {
-		every = 5
+		every = 6
 	}
 	n := len(out)
 	for i := 0; i < n; i++ {
@@ -635,6 +641,11 @@ func runC15(c *report.Ctx) {
 		} else {
 			done++
 			c.Stats.Count("trees_completed", 1)
+			if bfs.FrontierCut == 0 {
+				// no unexpanded state is left: every head sequence of ANY length over this
+				// tree (and every fault placement, where enumerated) leads to a state seen
+				c.Stats.Count("trees_search_reached_fixed_point", 1)
+			}
 			if w.faults {
 				c.Stats.Count("trees_with_fault_enumeration", 1)
 			}
